@@ -414,6 +414,87 @@ def run_rulesets(ctx, seed, index):
                                                   'b': texts[b]})
 
 
+MUT_OPS = ['setitem', 'update', 'update-kw', 'pop', 'del', 'setdefault',
+           'ior', 'clear-update', 'popitem', 'set_rules-merge',
+           'set_rules-overwrite']
+MUT_VALUES = ['', '!', 'role:r0', 'role:r1 and rule:p0', 'not role:r0']
+
+
+def run_mutate(ctx, steps, first_op=None, small=False):
+    """A long-lived rule set is dumped, changed in place through any of the
+    mapping's mutators (or through Enforcer.set_rules), and dumped again:
+    every dump must load back to the rule set as it is at that moment."""
+    from oslo_policy import _parser, policy
+    common.set_ctx(ctx)
+    rules = policy.Rules.from_dict({'p0': 'role:r0', 'p1': '',
+                                    'p2': 'role:r1 or rule:p0'}, 'p0')
+    enf = common.mk_enforcer(rules=rules, default_rule='p0')
+    rules = enf.rules
+    trace = []
+
+    def check(label):
+        live = enf.rules
+        dumped = str(live)
+        again = policy.Rules.load(dumped, 'p0')
+        want = {k: str(v) for k, v in live.items()}
+        got = {k: str(v) for k, v in again.items()}
+        ctx.observe(label, dumped)
+        ctx.require(got == want, 'mutate:dump-is-not-the-current-rule-set',
+                    detail={'trace': list(trace), 'dumped': dumped,
+                            'current': want, 'loaded': got})
+    check('dump0')
+    for i in range(steps):
+        if i == 0 and first_op is not None:
+            op = first_op
+        else:
+            op = MUT_OPS[int(ctx.choice('op%d' % i,
+                                        list(range(len(MUT_OPS)))))]
+        name = str(ctx.choice('name%d' % i, ['p0', 'q'] if small
+                              else ['p0', 'p1', 'q']))
+        text = MUT_VALUES[int(ctx.choice('value%d' % i, [0, 3] if small
+                                         else list(range(len(MUT_VALUES)))))]
+        val = _parser.parse_rule(text)
+        trace.append([op, name, text])
+        live = enf.rules
+        if op == 'setitem':
+            live[name] = val
+        elif op == 'update':
+            live.update({name: val})
+        elif op == 'update-kw':
+            live.update(**{name: val})
+        elif op == 'pop':
+            live.pop(name, None)
+        elif op == 'del':
+            if name in live:
+                del live[name]
+        elif op == 'setdefault':
+            live.setdefault(name, val)
+        elif op == 'ior':
+            live |= {name: val}
+        elif op == 'clear-update':
+            live.clear()
+            live.update({name: val})
+        elif op == 'popitem':
+            if live:
+                live.popitem()
+        elif op == 'set_rules-merge':
+            enf.set_rules({name: val}, overwrite=False, use_conf=False)
+        else:
+            enf.set_rules({name: val}, overwrite=True, use_conf=False)
+        check('dump%d' % (i + 1))
+    ctx.observe('trace', trace)
+    ctx.cover('mutate:checked')
+
+
+def cubes_mutate(tier, seed):
+    out = [{'steps': 1}]
+    out += [{'steps': 2, 'first_op': op} for op in MUT_OPS]
+    if tier != 'quick':
+        out += [{'steps': 3, 'first_op': op, 'small': True}
+                for op in MUT_OPS]
+    return out
+
+
 def cubes_rulesets(tier, seed):
     return [{'seed': seed, 'index': i}
             for i in range(40 if tier == 'quick' else 300)]
@@ -424,12 +505,14 @@ HARNESSES = {
     'lists': {'fn': run_lists, 'cubes': cubes_lists},
     'nested': {'fn': run_nested, 'cubes': cubes_nested},
     'rulesets': {'fn': run_rulesets, 'cubes': cubes_rulesets},
+    'mutate': {'fn': run_mutate, 'cubes': cubes_mutate},
     'http': {'fn': run_http, 'cubes': cubes_http},
     'equal': {'fn': run_equal, 'cubes': cubes_equal},
 }
 REQUIRED_COVER = ['tokens:roundtrip', 'lists:roundtrip', 'nested:roundtrip',
                   'rulesets:roundtrip', 'rulesets:equal-defaults',
-                  'http:roundtrip', 'equal:compared']
+                  'http:roundtrip', 'equal:compared',
+                  'mutate:checked']
 
 
 def cube_weight(h, p):
@@ -452,7 +535,16 @@ def evidence(tier):
             'rulesets': 'seeded rule sets of 1-6 rules incl. always-allow '
                         'spellings',
         },
-        'bounds_more': {'http': '5 http(s) leaves (with user-info, query, '
+        'bounds_more': {'mutate': 'one rule set dumped, then changed in '
+                        'place by %s mutations, each any of %d mutators '
+                        '(item assignment, update, pop, del, setdefault, |=, '
+                        'clear, popitem, set_rules with and without '
+                        'overwrite) on 3 names x %d values, dumped and '
+                        'loaded after each' % (
+                            '1-2' if tier == 'quick' else '1-3 (3: reduced '
+                            'name/value menus)', len(MUT_OPS),
+                            len(MUT_VALUES)),
+                        'http': '5 http(s) leaves (with user-info, query, '
                         'fragment) x 4 placements: requests made by T and by '
                         'parse(print(T)) compared on a recording stub',
                         'equal': '%d pairs of near-identical check strings: '
